@@ -34,16 +34,11 @@ fn lim() -> Limits {
 
 /// Independent greedy run-length encoding of the model: (id, run, len, content index)
 fn rle(model: &BTreeMap<u64, Vec<u8>>) -> Vec<(u64, u32, u32, usize)> {
-    let mut distinct: Vec<&Vec<u8>> = Vec::new();
+    let mut distinct: BTreeMap<&Vec<u8>, usize> = BTreeMap::new();
     let mut out: Vec<(u64, u32, u32, usize)> = Vec::new();
     for (id, c) in model {
-        let ci = match distinct.iter().position(|d| *d == c) {
-            Some(i) => i,
-            None => {
-                distinct.push(c);
-                distinct.len() - 1
-            }
-        };
+        let next = distinct.len();
+        let ci = *distinct.entry(c).or_insert(next);
         if let Some(last) = out.last_mut() {
             if last.3 == ci && last.0 + u64::from(last.1) == *id {
                 last.1 += 1;
@@ -112,6 +107,49 @@ pub fn check_written(bytes: &[u8], model: &BTreeMap<u64, Vec<u8>>, pfx: &str) ->
         }
     }
     Ok((adjacent_rep, nonadjacent_rep, ar.has_leaves))
+}
+
+
+/// More than 2^16 distinct contents in one archive, then ids that repeat early ones (far away, and in a run).
+#[derive(Clone, Debug, Serialize, Deserialize)]
+pub struct ManyCase {
+    pub n: u32,
+    pub internal: u8,
+    pub asyncw: bool,
+    pub reopen: bool,
+}
+
+fn check_many(c: &ManyCase) -> CaseResult {
+    let mut a = if c.asyncw { crate::libx::Arch::new_async() } else { crate::libx::Arch::new_sync() };
+    let mut f = a.fields();
+    f.internal = c.internal;
+    a.set_fields(&f);
+    let mut model: BTreeMap<u64, Vec<u8>> = BTreeMap::new();
+    let content = |i: u32| -> Vec<u8> { (i ^ 0x5a5a_0000).to_le_bytes().to_vec() };
+    let mut add = |a: &mut crate::libx::Arch, id: u64, v: Vec<u8>| -> Result<(), Fail> {
+        guarded("add_tile", || a.add(id, v.clone()))?.map_err(|e| Fail::new("C10/harness", format!("add_tile: {e}")))?;
+        model.insert(id, v);
+        Ok(())
+    };
+    for i in 0..c.n {
+        add(&mut a, 10 + 2 * u64::from(i), content(i))?;
+    }
+    // repeats of early, middle and late contents behind everything else: single ids and a run of three
+    let far = 10 + 2 * u64::from(c.n) + 100;
+    for (k, i) in [3u32, 10, c.n / 2, c.n - 1].iter().enumerate() {
+        add(&mut a, far + 10 * k as u64, content(*i))?;
+    }
+    for k in 0..3u64 {
+        add(&mut a, far + 1000 + k, content(7))?;
+    }
+    let mut bytes = guarded("to_writer", || a.write())?.map_err(|e| Fail::new("C10/write-err", format!("{e}")))?;
+    if c.reopen {
+        let b2 = bytes.clone();
+        let again = guarded("open", || if c.asyncw { crate::libx::Arch::open_async(b2) } else { crate::libx::Arch::open_sync(b2) })?.map_err(|e| Fail::new("C10/open-err", format!("{e}")))?;
+        bytes = guarded("to_writer", || again.write())?.map_err(|e| Fail::new("C10/write-err", format!("{e}")))?;
+    }
+    let (adj, nonadj, leaves) = check_written(&bytes, &model, "C10")?;
+    Ok(Meta::new(adj && nonadj).label(c.n > 65_536, "distinct-contents>65536").label(c.reopen, "rewritten-after-reopen").label(leaves, "leaf-spill").label(nonadj, "non-adjacent-repetition"))
 }
 
 fn check_dup(c: &DupCase) -> CaseResult {
@@ -258,6 +296,9 @@ pub fn run(ctx: &Ctx) {
         })
         .collect();
     crate::engine::run_list(ctx, "runs-beyond-65535", &longs, check_dup);
+    // more than 2^16 distinct contents (whatever indexes contents by a 16-bit quantity or caps its table)
+    let many: Vec<ManyCase> = ctx.tier.pick(vec![65_537u32, 66_001], vec![65_536, 65_537, 66_001, 140_000, 300_000]).iter().enumerate().map(|(k, n)| ManyCase { n: *n, internal: 1 + (k % 4) as u8, asyncw: k % 2 == 1, reopen: k % 2 == 0 }).collect();
+    crate::engine::run_list(ctx, "more-than-65536-distinct-contents", &many, check_many);
     let (mo, mi) = ctx.tier.pick((50, 40), (200, 300));
     run_proptest(ctx, "retention-histories", PtCfg::new(ctx.lanes, ctx.tier.pick(1000, 8000)), || history::history(mo, mi, 60), check_retention);
     for c in ["adjacent-repetition", "non-adjacent-repetition", "reader-backed-source", "foreign-undeduplicated-source", "mixture-memory-equals-backed", "retention-shared-content", "retention-remove", "retention-replace", "retention-reopen"] {
@@ -269,6 +310,7 @@ pub fn replay(sub: &str, case: &Value) -> Option<CaseResult> {
     match sub {
         "duplication-patterns" | "runs-beyond-65535" => Some(check_dup(&super::de(case)?)),
         "retention-histories" => Some(check_retention(&super::de(case)?)),
+        "more-than-65536-distinct-contents" => Some(check_many(&super::de(case)?)),
         _ => None,
     }
 }
